@@ -159,6 +159,8 @@ def _abs_res(op, ctx, res):
                 "flags": {"stack": _len(ctx, "parser_stack"), "pre_parse": bool(getattr(ctx, "pre_parse", False)),
                           "begline_counter": int(getattr(ctx, "begline_disable_counter", 0) or 0),
                           "begline_enabled": bool(getattr(ctx, "begline_enabled", True))}}
+    if op == "__init__":
+        return {"db_path": str(getattr(ctx, "db_path", None))}
     if op == "to_return":
         if isinstance(res, dict):
             return {"keys": sorted(str(k) for k in res), "lens": [len(res[k]) if isinstance(res.get(k), list) else -1 for k in KINDS]}
@@ -265,6 +267,10 @@ def _wrap(cls, op):
                        "t": _test}
                 if not (nested and op in MSG_OPS):
                     rec["nm"] = _new_msgs(self, m0)
+                # a test that replaces a method of Wtp (unittest.mock.patch): what follows is not the library's behaviour
+                pat = [x for x, w in _INSTALLED.items() if cls.__dict__.get(x) is not w]
+                if pat:
+                    rec["pat"] = pat
                 _w(rec)
                 if op == "__init__" and exc is None:
                     _header_ns(self)
@@ -297,6 +303,7 @@ OPS = ["__init__", "add_page", "get_page", "page_exists", "get_page_resolve_redi
        "start_section", "start_subsection", "expand", "parse", "node_to_wikitext", "to_return",
        "error", "warning", "debug", "note", "wiki_notice"]
 _ORIG: dict = {}
+_INSTALLED: dict = {}    # op -> the object this plugin put into Wtp.__dict__
 
 
 def _install():
@@ -330,6 +337,9 @@ def _install():
                 _depth -= 1
 
         cls.__init__ = init_with_lua
+    for op in OPS:
+        if op in cls.__dict__:
+            _INSTALLED[op] = cls.__dict__[op]
 
 
 if OUT:
